@@ -818,3 +818,68 @@ def _m59():
     for k, v in list(cw._rule_handlers.items()):
         if v is old:
             cw._rule_handlers[k] = bc.compdb_compile
+
+
+def _swap_handler(registry_owner, old, new):
+    """rule handlers are registered in dictionaries at import time: replace the entry as well"""
+    for attr in ('_handlers', '_BuildRuleHandler__handlers', 'handlers'):
+        d = getattr(registry_owner, attr, None)
+        if isinstance(d, dict):
+            for k, v in list(d.items()):
+                if v is old:
+                    d[k] = new
+
+
+@mutant('make_link_drops_extra_deps')
+def _m60():
+    from bfg9000.builtins import link as bl
+    from bfg9000.backends.make import writer as mw
+    old = bl.make_link
+    _patch_source(bl, 'make_link', 'manifest + rule.extra_deps),', 'manifest),')
+    _swap_handler(mw.rule_handler, old, bl.make_link)
+
+
+@mutant('ninja_link_drops_libs')
+def _m61():
+    from bfg9000.builtins import link as bl
+    from bfg9000.backends.ninja import writer as nw
+    old = bl.ninja_link
+    import inspect
+    src = inspect.getsource(old)
+    assert 'rule.libs' in src
+    _patch_source(bl, 'ninja_link', 'rule.libs', '[]')
+    _swap_handler(nw.rule_handler, old, bl.ninja_link)
+
+
+@mutant('multitarget_no_stamp_deps')
+def _m62():
+    # the stamp rule of a multi-output step loses its prerequisites
+    from bfg9000.backends.make import writer as mw
+    _patch_source(mw, 'multitarget_rule',
+                  'buildfile.rule(primary, deps, order_only, recipe, variables, phony)',
+                  'buildfile.rule(primary, deps if len(targets) == 1 else None, order_only, recipe, '
+                  'variables, phony)')
+    from bfg9000.builtins import command as bc, link as bl, compile as bcomp
+    for m in (bc, bl, bcomp):
+        if hasattr(m, 'make'):
+            pass
+
+
+@mutant('defaults_remove_from_explicit')
+def _m63():
+    # test(x) also withdraws an explicit default(x)
+    from bfg9000.builtins import default as bd
+
+    def remove(self, output, explicit=False):
+        for outputs in (self.default_outputs, self.fallback_defaults):
+            for i, v in enumerate(list(outputs)):
+                if output is v:
+                    outputs.remove(v)
+    bd.DefaultOutputs.remove = remove
+
+
+@mutant('all_rule_uses_fallback')
+def _m64():
+    from bfg9000.builtins import default as bd
+    _patch_source(bd, 'make_all_rule', "deps=build_inputs['defaults'].outputs",
+                  "deps=build_inputs['defaults'].fallback_defaults")
